@@ -226,6 +226,7 @@ def undecodable_table_kept(tag, n):
         ob('fallback-compile-verbatim', eq(tobytes(table.compile(font)), tobytes(data)))
         ob('fallback-getTableData-verbatim', eq(tobytes(font.getTableData(tag)), tobytes(data)))
         ob('fallback-has-error-attr', hasattr(table, 'ERROR'))
+        ob('second-lookup-returns-the-same-raw-table', font[tag] is table)
     else:
         ob('decoded', True)
 
